@@ -4,6 +4,8 @@ package wl
 
 import (
 	"fmt"
+	"os"
+	"path/filepath"
 
 	"github.com/hashicorp/raft"
 	wal "github.com/hashicorp/raft-wal"
@@ -150,9 +152,30 @@ func (r *Runner) Run(wl Workload) error {
 			var l raft.Log
 			idx := r.M.First + uint64(op.A)
 			_ = r.call(step, "GetLog", func() error { r.W.GetLog(idx, &l); return nil })
-		case "reopen":
+		case "reopen", "reopenlost":
 			if err := r.call(step, "Close", func() error { return r.W.Close() }); err != nil {
 				return fmt.Errorf("step %d Close: %w", step, err)
+			}
+			if op.K == "reopenlost" && r.Cfg.Dir != "" {
+				// a power loss may take away a tail file that was created (and listed in the metadata)
+				// but never committed to: its directory entry is only fsynced with the first commit.
+				// The harness removes such a file under its own marker; Open must re-create it.
+				_ = r.call(step, "HarnessLoseTail", func() error {
+					names, _ := filepath.Glob(filepath.Join(r.Cfg.Dir, "*.wal"))
+					for _, n := range names {
+						f, err := os.Open(n)
+						if err != nil {
+							continue
+						}
+						var hdr [8]byte
+						k, _ := f.Read(hdr[:])
+						f.Close()
+						if k == 8 && hdr == [8]byte{} {
+							os.Remove(n)
+						}
+					}
+					return nil
+				})
 			}
 			if err := r.Open(step); err != nil {
 				return fmt.Errorf("step %d Open: %w", step, err)
